@@ -12,7 +12,7 @@ import z3
 from pv import classes, smt, source
 from pv.contract import REG, FIELDS, THEORIES, SPECFNS, CLASS_INV, load_all
 from pv.core import Ob, DISCHARGED, REFUTED, UNDECIDED
-from pv.evalx import Evaluator, from_py, lit_of
+from pv.evalx import Evaluator, from_py, lit_of, EMPTY_DICT
 from pv.source import BindingError
 from pv.state import State, ARR_II, ARR_IS
 from pv.values import (VMap, V, VInt, VBool, VStr, VNONE, VNoneT, VTuple, VRef, VList, VOpt, VPy, VFn, VAny,
@@ -584,11 +584,49 @@ class Engine:
             key = self.map_key(m, args[0])
             has = st.mhas(m.t, key, m.kk)
             cur = st.mval(m.t, key, m.kk)
-            new = self.as_ref(args[1]) if not isinstance(args[1], VInt) else args[1].t
+            dflt = args[1]
+            if isinstance(dflt, VPy) and dflt.obj is EMPTY_DICT:
+                dflt = self.new_map(st, m.vk)
+            new = self.as_ref(dflt) if not isinstance(dflt, VInt) else dflt.t
             val = z3.If(has, cur, new)
             st.mput(m.t, key, val, m.kk)
             return self.map_value(st, m, key)
         raise OutOfSubset('dict.%s' % name)
+
+    def new_map(self, st, kind):
+        """fresh empty dict of kind 'map:<kk>:<vk>'"""
+        if not kind.startswith('map:'):
+            raise OutOfSubset('empty dict where a %s is expected' % kind)
+        kk, vk = kind[4:].split(':', 1)
+        r = st.alloc('dict')
+        name, rng_, cur = st._marr(r, 'has', kk)
+        empty = z3.K(S if kk == 'str' else I, z3.BoolVal(False))
+        st.heap[name] = z3.Store(st.arr(name, z3.ArraySort(I, rng_)), r, empty)
+        return VMap(r, kk, vk)
+
+    def dict_comp(self, st, e):
+        """{k: v for k, v in m.items() if cond}: a fresh dict holding a subset of m's entries (the filter is abstracted:
+        which entries survive is left open, entries are never changed or invented)."""
+        g = e.generators
+        if len(g) != 1 or not (isinstance(g[0].iter, ast.Call) and isinstance(g[0].iter.func, ast.Attribute)
+                               and g[0].iter.func.attr == 'items'):
+            raise OutOfSubset('dict comprehension shape')
+        tgt = g[0].target
+        if not (isinstance(tgt, ast.Tuple) and len(tgt.elts) == 2 and isinstance(e.key, ast.Name) and isinstance(e.value, ast.Name)
+                and e.key.id == tgt.elts[0].id and e.value.id == tgt.elts[1].id):
+            raise OutOfSubset('dict comprehension that changes keys or values')
+        src = self.ev.ev(st, g[0].iter.func.value)
+        if not isinstance(src, VMap):
+            raise OutOfSubset('dict comprehension over %s' % kind_of(src))
+        new = self.new_map(st, 'map:%s:%s' % (src.kk, src.vk))
+        k = z3.Const(fresh_name('k'), S if src.kk == 'str' else I)
+        hname, hr, _ = st._marr(new.t, 'has', src.kk)
+        hv = z3.Const(fresh_name('sub'), hr)
+        st.heap[hname] = z3.Store(st.arr(hname, z3.ArraySort(I, hr)), new.t, hv)
+        vname, vr, _ = st._marr(new.t, 'val', src.kk)
+        st.heap[vname] = z3.Store(st.arr(vname, z3.ArraySort(I, vr)), new.t, st._marr(src.t, 'val', src.kk)[2])
+        st.pc.append(z3.ForAll([k], z3.Implies(z3.Select(hv, k), st.mhas(src.t, k, src.kk))))
+        return new
 
     def map_contains(self, st, m, k):
         raise OutOfSubset('membership in object of class %s' % m.cls)
